@@ -43,15 +43,15 @@ type Failure struct {
 
 // Unit is the result of one work unit.
 type Unit struct {
-	Ev       string           `json:"ev"`
-	Run      int              `json:"run"`
-	Evals    int64            `json:"evals"`              // executions in this unit
-	Steps    int64            `json:"steps,omitempty"`    // simulated steps
-	Counters map[string]int64 `json:"c,omitempty"`        // fault kinds fired, probes hit, ...
+	Ev       string              `json:"ev"`
+	Run      int                 `json:"run"`
+	Evals    int64               `json:"evals"`           // executions in this unit
+	Steps    int64               `json:"steps,omitempty"` // simulated steps
+	Counters map[string]int64    `json:"c,omitempty"`     // fault kinds fired, probes hit, ...
 	Hashes   map[string][]uint64 `json:"h,omitempty"`     // distinctness measures: name -> hashes
-	Samples  []interface{}    `json:"samples,omitempty"`
-	Fails    []*Failure       `json:"fails,omitempty"`
-	Trouble  string           `json:"trouble,omitempty"` // machinery problem: exit 2 at the driver
+	Samples  []interface{}       `json:"samples,omitempty"`
+	Fails    []*Failure          `json:"fails,omitempty"`
+	Trouble  string              `json:"trouble,omitempty"` // machinery problem: exit 2 at the driver
 }
 
 // Parse reads the worker flags.
